@@ -95,8 +95,12 @@ pub fn random_u256() -> U256 {
     let mut ret;
     loop {
         rng.fill_bytes(&mut buf[..]);
+        #[cfg(gm_rs_verif)]
+        crate::verif::rng_candidate(&mut buf);
         ret = u256_from_be_bytes(&buf);
         if u256_cmp(&ret, &SM2_P_MINUS_ONE) < 0 && ret != [0, 0, 0, 0] {
+            #[cfg(gm_rs_verif)]
+            crate::verif::rng_accept(&ret);
             break;
         }
     }
